@@ -597,6 +597,13 @@ fn c16_pair_long_raw_m16() { c16_pair::<64, 64, false, 48>(16, 16) }
 #[kani::proof]
 #[kani::unwind(66)]
 fn c16_pair_long_norm_m16() { c16_pair::<64, 64, true, 48>(16, 16) }
+/// long forms: block hash 2 beyond the short capacity (differences at index >= 32)
+#[kani::proof]
+#[kani::unwind(66)]
+fn c16_pair_long_raw_m4_40() { c16_pair::<64, 64, false, 56>(4, 40) }
+#[kani::proof]
+#[kani::unwind(66)]
+fn c16_pair_long_norm_m4_40() { c16_pair::<64, 64, true, 56>(4, 40) }
 #[kani::proof]
 #[kani::unwind(170)]
 fn c16_pair_short_raw_full() { c16_pair::<64, 32, false, 160>(64, 32) }
